@@ -9,6 +9,7 @@
   Collections reached over HTTP are always tree-git stores.
 -/
 import Xandikos.Store.Model
+import Xandikos.Store.Meta
 import Xandikos.Http.Etag
 import Xandikos.Py.Path
 
@@ -240,7 +241,12 @@ def mkcolAt (w : World) (path : String) (ct : CType) : World × Outcome :=
   let (parent, _) := Path.splitS p
   if hasGitSegment p then (w, .error)
   else if !(w.isDirPath parent) then (w, .conflict)
-  else (w.setColl p { st := Store.init .tree, ctype := ct }, .mkcol)
+  else
+    -- MKCALENDAR records the type in the collection's metadata file (`store.set_type`)
+    let st := match ct with
+      | .calendar => (setMeta (Store.init .tree) "type" (some "calendar")).1
+      | _ => Store.init .tree
+    (w.setColl p { st := st, ctype := ct }, .mkcol)
 
 /-- `MkcolMethod.handle` (plain, no body) -/
 def mkcol (w : World) (r : Req) : World × Outcome :=
